@@ -111,8 +111,9 @@ def copy_ecu_with_frames(ecu_or_glob, source_db, target_db, rx=True, tx=True, di
     if direct_ecu_only:
         # delete ecu-names if not direct in communication to ecu
         ecus_to_delete = []
+        wanted_names = [ecu.name for ecu in ecu_list]
         for ecu in target_db.ecus:
-            if ecu not in ecu_list:  # ecu is not a wanted ecu
+            if ecu.name not in wanted_names:  # ecu is not a wanted ecu
                 found = False
                 for frame in target_db.frames:
                     if ecu.name in frame.transmitters:
